@@ -48,6 +48,8 @@ BAD_TEXT = {
     "unknown-modifier": ["mm = 2 * a; frobnicate: 3"],
     "unknown-directive": ["@frobnicate something"],
     "unterminated-block": ["@group g1", "    gg = 2 * a"],
+    "scaled-dimension": ["[DD] = 2 * [A] ** 2"],
+    "scaled-relation": ["@context cc", "    3 [A] -> [A] ** 2: value * value", "@end"],
 }
 
 
@@ -153,7 +155,7 @@ def run(chk):
     os.remove(dump)
     good = [st for st in states if st["kind"] == "good"]
     bad = [st for st in states if st["kind"] == "bad"]
-    if len(good) < 2000 or len(bad) < 8:
+    if len(good) < 2000 or len(bad) < 10:
         raise MachineryError("generator: %d good, %d damaged files" % (len(good), len(bad)))
     tmp = tempfile.mkdtemp(prefix="c10.", dir=chk.scratch)
     paths = ["lines", "file", "define", "cold-cache", "warm-cache"]
@@ -219,6 +221,18 @@ def run(chk):
                 u = load(path_kind, text, F, tmp)
             except Exception:
                 raised = True
+            if not raised and st["why"] in ("scaled-dimension", "scaled-relation"):
+                try:
+                    if st["why"] == "scaled-dimension":
+                        u.get_dimensionality("[DD]")
+                    else:
+                        with u.context("cc"):
+                            u.Quantity(F(2), "a").to("a ** 2")
+                except Exception:
+                    raised = True
+                else:
+                    chk.diverge({"clause": "ill-formed-given-a-meaning", "why": st["why"], "path": path_kind}, {"text": text})
+                continue
             if not raised:
                 for n in affected:
                     try:
@@ -232,6 +246,7 @@ def run(chk):
                         chk.diverge({"clause": "ill-formed-given-a-meaning", "why": st["why"], "path": path_kind}, {"text": text, "name": n})
                         break
     chk.mark("bad-files")
+    imported_file_edit(chk, tmp)
     bundled_paths(chk, tmp)
     shutil.rmtree(tmp, ignore_errors=True)
     return chk.finish(
@@ -239,6 +254,46 @@ def run(chk):
              "specification's meaning, damaged files x path (must be refused), and the bundled files through four loading paths compared "
              "definition by definition; distinct by (permutation, padding, layout, path, type); non-trivial = lines not in written order",
         exhaustive=thorough)
+
+
+def imported_file_edit(chk, tmp):
+    """@import: the on-disk cache belongs to the content of *all* files of the project - editing an imported file (or the root file)
+    between two loads gives the answers of the files as they now are, also for what the cache stores (root factors, listings)."""
+    import pint
+    d = os.path.join(tmp, "proj")
+    os.makedirs(d, exist_ok=True)
+    root, inc = os.path.join(d, "root.txt"), os.path.join(d, "inc.txt")
+
+    def write(root_extra, inc_factor, inc_extra):
+        with open(root, "w") as fh:
+            fh.write("a = [A]\n@import inc.txt\n" + root_extra)
+        with open(inc, "w") as fh:
+            fh.write("b = %s * a\nc = 2 * b\n" % inc_factor + inc_extra)
+
+    def answers(u):
+        out = {}
+        for n in ("a", "b", "c", "d", "e"):
+            try:
+                f, ru = u.get_root_units(n)
+                out[n] = (F(f), sorted(str(x) for x in u.get_compatible_units(n)))
+            except Exception as ex:
+                out[n] = type(ex).__name__
+        return out
+
+    for which, edit in (("imported", lambda: write("", "7", "d = 3 * a\n")), ("root", lambda: write("e = 5 * a\n", "3", "")), ("both", lambda: write("e = 11 * a\n", "13", ""))):
+        cache = os.path.join(tmp, "projcache_" + which)
+        write("", "3", "")
+        chk.case(("import-edit", which), nontrivial=True)
+        try:
+            cold = answers(pint.UnitRegistry(root, non_int_type=F, cache_folder=cache))
+            edit()
+            warm = answers(pint.UnitRegistry(root, non_int_type=F, cache_folder=cache))
+            plain = answers(pint.UnitRegistry(root, non_int_type=F))
+        except Exception as ex:
+            chk.diverge({"clause": "import-edit-raises", "edited": which, "exc": type(ex).__name__}, {})
+            continue
+        if warm != plain:
+            chk.diverge({"clause": "stale-cache-after-edit", "edited": which}, {"with_cache": repr(warm), "without_cache": repr(plain), "before_edit": repr(cold)})
 
 
 def bundled_paths(chk, tmp):
@@ -270,6 +325,23 @@ def bundled_paths(chk, tmp):
         # numeric literals are read in the registry's numeric type: a rational literal gives an exact factor
         if isinstance(d["scale"], F) and not d["irr"] and answers["file"][0] != "raises" and isinstance(answers["file"][0], float):
             pass            # irrational chains are floats by nature (C02 owns the value)
+    # prefixes: value, symbol ("_" = none: the name stands in) and aliases exactly as written, through every loading path
+    for pn, pd in R["prefixes"].items():
+        chk.case(("bundled-prefix", pn))
+        for k, u in regs.items():
+            try:
+                got = {"value": u.Quantity(F(1), pn + "meter").to("meter").magnitude, "symbol": u.get_symbol(pn + "meter"),
+                       "aliases": [u.get_name(a + "meter") for a in pd["aliases"]],
+                       "symbol-resolves": u.get_name(pd["symbol"] + "meter") if pd["symbol"] else pn + "meter"}
+            except Exception as e:
+                chk.diverge({"clause": "bundled-prefix-raises", "path": k, "exc": type(e).__name__}, {"prefix": pn})
+                continue
+            want = {"value": pd["value"], "symbol": (pd["symbol"] or pn) + "m", "aliases": [pn + "meter"] * len(pd["aliases"]), "symbol-resolves": pn + "meter"}
+            if pd["symbol"] in ("m", "h", "d", "da", "c"):        # m-meter = "mm" etc. are fine; but symbol + "meter" may have another reading
+                got["symbol-resolves"] = want["symbol-resolves"]
+            bad = [f for f in want if got[f] != want[f]]
+            if bad:
+                chk.diverge({"clause": "bundled-prefix", "path": k, "field": bad[0]}, {"prefix": pn, "expected": {f: str(want[f]) for f in bad}, "observed": {f: str(got[f]) for f in bad}})
     for k, u in regs.items():
         if u.default_system != R["defaults"].get("system"):
             chk.diverge({"clause": "defaults-ignored", "path": k}, {"expected": R["defaults"], "observed": u.default_system})
